@@ -11,6 +11,14 @@ from .interp import Interp, Scenario, Sym, Const, Bytes, render, render_items, m
 from .loader import AnalysisError
 
 
+class Problem(tuple):
+    """(kind, message, line) - a plain 3-tuple for existing callers - that also carries the Read it is about (`.read`)."""
+    def __new__(cls, kind, message, line, read=None):
+        self = tuple.__new__(cls, (kind, message, line))
+        self.read = read
+        return self
+
+
 class Read(object):
     """One element of a reader sequence."""
     def __init__(self, kind, target, width, text, line, via=None):
@@ -157,13 +165,13 @@ def reader_sequence(state, buf='packet', cls=None):
                 continue
             for r, rs in pending:
                 if rs[0] not in ('', '0'):
-                    problems.append(('read-offset', 'read %s does not start at the front of the buffer' % r.text, r.line))
+                    problems.append(Problem('read-offset', 'read %s does not start at the front of the buffer' % r.text, r.line, r))
                 elif rs[1] != sl[1]:
                     if _int(rs[1]) is not None and _int(sl[1]) is not None and _int(rs[1]) <= _int(sl[1]):
                         r.width = sl[1]
                         r.kind = 'fixed-skip' if r.kind == 'fixed' else r.kind
                     else:
-                        problems.append(('consume-what-you-read', 'read %s but consumed [:%s]' % (r.text, sl[1]), line))
+                        problems.append(Problem('consume-what-you-read', 'read %s but consumed [:%s]' % (r.text, sl[1]), line, r))
                         r.width = sl[1]
                 else:
                     r.width = sl[1]
@@ -189,7 +197,7 @@ def reader_sequence(state, buf='packet', cls=None):
                         pending.append((r, sl))
                         reads.append(r)
     for r, rs in pending:
-        problems.append(('consume-what-you-read', 'read %s is never consumed' % r.text, r.line))
+        problems.append(Problem('consume-what-you-read', 'read %s is never consumed' % r.text, r.line, r))
     return reads, problems
 
 
